@@ -26,6 +26,8 @@ def collation_args(installed):
         (lit(''), 'malformed'), (lit('no such'), 'malformed'), (lit('%%'), 'malformed'),
         (lit('http://[bad'), 'malformed'), (lit('collation/x'), 'malformed'),
         ('()', 'empty'), ('1', 'wrongtype'), ("('C','C')", 'wrongtype'),
+        (lit('it_IT.UTF-8\x00'), 'malformed'), (lit(UCA + '?lang=en\x00US'), 'malformed'),
+        (lit(UCA + '?lang=\x00;fallback=no'), 'malformed'), (lit('C\x00'), 'malformed'),
     ]
     for name in ['en_US.UTF-8', 'it_IT.UTF-8', 'de_DE.UTF-8', 'tr_TR.UTF-8', 'fr_FR.UTF-8',
                  'sr_RS.UTF-8@latin', 'it_IT.ISO8859-1', 'ja_JP.UTF-8', 'it_IT.utf8']:
@@ -38,7 +40,8 @@ class CollGen:
         self.rng = rng
         self.version = version
         self.args = collation_args(installed)
-        self.locking = [a for a in self.args if a[1] in ('uca', 'locale-installed')]
+        self.locking = [a for a in self.args if a[1] in ('uca', 'locale-installed')] + \
+            [a for a in self.args if '\x00' in a[0]][:2]
         self.lock_bias = lock_bias
         self.kinds = set()
         self.fns = set()
